@@ -193,6 +193,15 @@ theorem C08_rule_dispatch (d : Desc) (i : Nat) :
   · intro hc; simp [ruleOf, h1, hc, commandRule]
   · intro ht; simp [ruleOf, h2, ht, targetRule]
 
+/-- every node rule takes its signature from the node (type + producers), the command rule from the command's definition;
+file-input, produced-node, command and target validity are delegated to the task classes modelled here -/
+theorem C08_rule_signature_sources :
+    RuleClass.sigSource .commandTask = .command ∧ RuleClass.sigSource .fileInputNodeTask = .node ∧
+    RuleClass.sigSource .virtualInputNodeTask = .node ∧ RuleClass.sigSource .producedNodeTask = .node ∧
+    RuleClass.validity .commandTask = .delegated ∧ RuleClass.validity .fileInputNodeTask = .delegated ∧
+    RuleClass.validity .producedNodeTask = .delegated ∧ RuleClass.validity .targetTask = .delegated ∧
+    RuleClass.validity .missingCommandTask = .neverValid := by decide
+
 /-- a file-input node's stored value is valid iff it is what the file's current stat record gives
 (`FileInputNodeTask::isResultValid`) -/
 theorem C08_file_input_valid_iff (d : Desc) (env : Env) (k : Key) (v : Val) (hr : ruleOf d k = .fileInputNodeTask) :
